@@ -278,4 +278,27 @@ def r4_4(ctx):
     raise AnalysisError(f"render(): text.spans assigned from `{norm(v)}` - ordering not understood")
 
 
-RULES = [r4_1, r4_2, r4_3, r4_4]
+def r4_5(ctx):
+    ctx.rule("R4.5", "tag names are matched modulo whitespace on both sides: the closing branch strips the name itself and then calls Style.normalize, the opening branch relies on Style.normalize alone - so every value Style.normalize returns must be whitespace-insensitive (str(parse(..)) or a .strip()ped form)")
+    f = ctx.repo.fn("style:Style.normalize")
+    n = 0
+    for r in walk_local(f.node):
+        if isinstance(r, ast.Return) and r.value is not None:
+            n += 1
+            txt = norm(r.value)
+            ok = txt.startswith("str(cls.parse(") or ".strip()" in txt
+            ctx.check(ok, f.fq, norm(r), f"{f.module.relpath}:{r.lineno}", "normal form does not depend on surrounding whitespace",
+                      f"Style.normalize returns `{txt}`, which keeps leading/trailing whitespace: an opening tag written `[name ]` is stacked under a different name than the `[/name]` that should close it (MarkupError, and the theme style is not found)")
+    ctx.floor(n, 2, "returns of Style.normalize")
+    m = ctx.repo.mod("markup")
+    render = m.fn("render")
+    ctx.check("style_name = tag.name[1:].strip()" in norm(render.node), render.fq, "closing name stripped", render.where, "closing tag name is stripped before normalisation", "the closing tag name is no longer stripped")
+
+
+def r4_6(ctx):
+    from .c06 import r6_4
+    from .common import borrow
+    borrow(ctx, r6_4, "R6.4", "R4.6", " [a tag opened later takes precedence: span styles are combined with Style.__add__, which must be right-biased including for attributes a later tag switches off]")
+
+
+RULES = [r4_1, r4_2, r4_3, r4_4, r4_5, r4_6]
